@@ -29,9 +29,11 @@ Trace == ndJsonDeserialize(IOEnv.TRACE_FILE)
 VARIABLES l, mode, scn, nviol,
           mkind, mcar, msrc,   \* monitor: per thread, kind / value carried / node it comes from
           mbad,                \* monitor: a merge inconsistent with the children was recorded
+          mpc, mat,            \* monitor: per thread, where it was last recorded (pc, role)
+          movr,                \* monitor: a merge was recorded inside another update's compute-assign window
           mlast                \* monitor: last value the adapter received, per kind
 
-tvars == <<l, mode, scn, nviol, mkind, mcar, msrc, mbad, mlast>>
+tvars == <<l, mode, scn, nviol, mkind, mcar, msrc, mbad, mpc, mat, movr, mlast>>
 allvars == <<vars, tvars>>
 
 Line == Trace[l]
@@ -54,10 +56,12 @@ Min(S) == CHOOSE x \in S : \A y \in S : x <= y
 Class(cs, free, nthreads) ==
   IF AsIsExplains(cs) THEN "aggregator-without-critical-descendant"
   ELSE IF free THEN (IF nthreads > 1 THEN "free-concurrent" ELSE "other")
+  ELSE IF movr THEN "non-atomic-merge"
   ELSE IF mbad THEN "stale-carried-value"
   ELSE "other"
 ClassT(free, nthreads) ==
   IF free THEN (IF nthreads > 1 THEN "free-concurrent" ELSE "other")
+  ELSE IF movr THEN "non-atomic-merge"
   ELSE IF mbad THEN "stale-carried-value" ELSE "other"
 
 CritErrorIn(cs) == \E x \in CritLeavesUnder(Root) : cs[x] = "ERROR"
@@ -78,16 +82,20 @@ QuiescentChecks(cs, ct, free, nthreads) ==
       + Soft("ErrorNotInvented", cs[Root] = "ERROR" => CritErrorIn(cs), <<"state", Class(cs, free, nthreads), cs>>)
 
 (* ---------------- model step named by the line ---------------- *)
-IsStep == Line.ev \in {"Begin", "MergeAt", "ReadCache", "Deliver"}
+IsStep == Line.ev \in {"Begin", "MergeEnter", "MergeUnblock", "MergeAssign", "ReadCache", "Deliver"}
 
 ModelAct ==
   LET a == Line.ev IN
   CASE a = "Begin" -> Begin(Line.t, Line.leaf, Line.kind, Line.v)
-    [] a = "MergeAt" -> MergeAt(Line.t)
+    [] a = "MergeEnter" -> MergeEnter(Line.t)
+    [] a = "MergeUnblock" -> MergeUnblock(Line.t)
+    [] a = "MergeAssign" -> MergeAssign(Line.t)
     [] a = "ReadCache" -> ReadCache(Line.t)
     [] a = "Deliver" -> Deliver(Line.t)
     [] OTHER -> FALSE
 
+HeldSet(k) == {n \in Nodes : lock'[k][n] # 0}
+SeqToSet(q) == {q[i] : i \in 1..Len(q)}
 ObsMatchNext ==
   /\ Line.ok
   /\ Line.t \in TIds
@@ -95,24 +103,41 @@ ObsMatchNext ==
   /\ thr'[Line.t].pc = Line.pc
   /\ Line.pc # "idle" => thr'[Line.t].at = Line.at
   /\ Line.pc = "call" => thr'[Line.t].carried = Line.carried
-  \* at role.merged the hook reports the cache of the role just merged
-  /\ Line.pc = "merged" =>
+  \* at merge.computed the hook reports the value about to be assigned
+  /\ Line.pc = "computed" => thr'[Line.t].newv = Line.carried
+  \* at role.merged the hook reports the cache of the role just merged ("-": the thread's arrival at
+  \* that gate was not awaited, it may have to wait for the role's next holder)
+  /\ (Line.pc = "merged" /\ Line.carried # "-") =>
        Line.carried = (IF thr'[Line.t].kind = "state" THEN cS'[Line.at] ELSE cT'[Line.at])
   /\ Line.recv = (IF Line.ev = "Deliver" THEN <<  <<thr[Line.t].kind, thr[Line.t].carried>>  >> ELSE <<>>)
   /\ Line.q = (\A t \in Threads : thr'[t].pc = "idle")
+  \* the roles whose lock cannot be had right now are exactly those an update is parked in
+  \* (handover: the assignment was observed only once the thread that waited for the role's lock had
+  \* taken it - that lock belongs to the next line)
+  /\ LET ho == IF Line.handover THEN {Line.at} ELSE {} IN
+       /\ SeqToSet(Line.lks) \ ho = HeldSet("state") \ ho
+       /\ SeqToSet(Line.lkt) \ ho = HeldSet("status") \ ho
 
 Matched == ModelAct /\ ObsMatchNext
 
 (* ---------------- monitor bookkeeping on a step line ---------------- *)
-\* a merge that stored something else than the product of the children's recorded values, with a
-\* carried value that is not the sender's recorded cache: the recorded signature of a stale value
+\* a merge that computed (or kept) something else than the product of the children's recorded values,
+\* with a carried value that is not the sender's recorded cache: the recorded signature of a stale value
+MergeLine == Line.ev \in {"MergeEnter", "MergeUnblock"} /\ Line.ok /\ Line.pc \in {"computed", "merged"}
+               /\ Line.t \in TIds /\ Line.at \in Nodes /\ SizeOK(Line.cs) /\ SizeOK(Line.ct)
 BadMerge ==
-  /\ Line.ev = "MergeAt" /\ Line.ok /\ Line.pc = "merged" /\ Line.t \in TIds
-  /\ Line.at \in Nodes /\ SizeOK(Line.cs) /\ SizeOK(Line.ct)
+  /\ MergeLine
   /\ msrc[Line.t] \in Nodes
-  /\ IF mkind[Line.t] = "state"
-       THEN Line.cs[Line.at] # AggState(Line.cs, Line.at) /\ mcar[Line.t] # Line.cs[msrc[Line.t]]
-       ELSE Line.ct[Line.at] # AggStatus(Line.ct, Line.at) /\ mcar[Line.t] # Line.ct[msrc[Line.t]]
+  /\ LET newv == IF Line.pc = "computed" THEN Line.carried
+                  ELSE IF mkind[Line.t] = "state" THEN Line.cs[Line.at] ELSE Line.ct[Line.at]
+     IN IF mkind[Line.t] = "state"
+          THEN newv # AggState(Line.cs, Line.at) /\ mcar[Line.t] # Line.cs[msrc[Line.t]]
+          ELSE newv # AggStatus(Line.ct, Line.at) /\ mcar[Line.t] # Line.ct[msrc[Line.t]]
+\* a thread got through the merge of a role while another update of the same kind was recorded between
+\* computing and assigning in that very role: the merge is not atomic (the role's lock is not held)
+Overrun ==
+  /\ MergeLine
+  /\ \E u \in TIds : u # Line.t /\ mpc[u] = "computed" /\ mat[u] = Line.at /\ mkind[u] = mkind[Line.t]
 
 MonitorStep ==
   LET t == Line.t
@@ -124,8 +149,11 @@ MonitorStep ==
   /\ mkind' = IF tracked /\ Line.ev = "Begin" THEN [mkind EXCEPT ![t] = Line.kind] ELSE mkind
   /\ mcar' = IF tracked /\ Line.pc = "call" THEN [mcar EXCEPT ![t] = Line.carried] ELSE mcar
   /\ msrc' = IF tracked /\ Line.ev = "Begin" THEN [msrc EXCEPT ![t] = Line.leaf]
-             ELSE IF tracked /\ Line.ev = "MergeAt" THEN [msrc EXCEPT ![t] = Line.at] ELSE msrc
+             ELSE IF tracked /\ Line.ev = "ReadCache" THEN [msrc EXCEPT ![t] = mat[t]] ELSE msrc
+  /\ mpc' = IF tracked THEN [mpc EXCEPT ![t] = Line.pc] ELSE mpc
+  /\ mat' = IF tracked /\ Line.pc \in {"call", "blocked", "computed", "merged"} THEN [mat EXCEPT ![t] = Line.at] ELSE mat
   /\ mbad' = (mbad \/ BadMerge)
+  /\ movr' = (movr \/ Overrun)
   /\ mlast' = newlast
   /\ nviol' = nviol
        + (IF Line.ev = "Begin" /\ SizeOK(Line.cs) /\ Line.leaf \in Nodes
@@ -162,7 +190,7 @@ TAbandon ==
   /\ l <= Len(Trace) /\ Line.ev = "Abandon"
   /\ IF mode = "ok" THEN PrintT(<<"DRIFT", scn, l, <<"Abandon", Line.a, Line.why>> >>) ELSE TRUE
   /\ mode' = "lost"
-  /\ l' = l + 1 /\ UNCHANGED <<vars, scn, nviol, mkind, mcar, msrc, mbad, mlast>>
+  /\ l' = l + 1 /\ UNCHANGED <<vars, scn, nviol, mkind, mcar, msrc, mbad, mpc, mat, movr, mlast>>
 
 \* end of a scheduled run: everything still in flight was released and ran to completion on its
 \* own; the tree is quiescent. Judged by the monitor; strict only when the model is quiescent too.
@@ -181,7 +209,7 @@ TSettle ==
   /\ IF mode = "ok" /\ Quiescent /\ ~(Line.ok /\ Line.inflight = 0 /\ Line.cs = cS /\ Line.ct = cT /\ Line.recv = <<>>)
        THEN PrintT(<<"DRIFT", scn, l, "Settle">>) ELSE TRUE
   /\ mode' = "lost"
-  /\ l' = l + 1 /\ UNCHANGED <<vars, scn, mkind, mcar, msrc, mbad>>
+  /\ l' = l + 1 /\ UNCHANGED <<vars, scn, mkind, mcar, msrc, mbad, mpc, mat, movr>>
 
 \* a new run: the model starts from RoleTree!Init for the recorded shape
 TReset ==
@@ -202,6 +230,9 @@ TReset ==
                  ELSE PrintT(<<"DRIFT", Line.scn, l, "Reset: tree not loaded or unknown shape">>)
   /\ mkind' = [t \in TIds |-> "-"] /\ mcar' = [t \in TIds |-> "-"] /\ msrc' = [t \in TIds |-> 0]
   /\ mbad' = FALSE /\ mlast' = [state |-> "none", status |-> "none"]
+  /\ mpc' = [t \in TIds |-> "idle"] /\ mat' = [t \in TIds |-> 0] /\ movr' = FALSE
+  /\ lock' = [k \in {"state", "status"} |->
+               [n \in 1..Len(Shapes[IF Line.shape \in DOMAIN Shapes THEN Line.shape ELSE "S01"].parent) |-> 0]]
   /\ l' = l + 1 /\ UNCHANGED nviol
 
 \* the tree as the real code sees it after loading, and its initial caches
@@ -216,7 +247,7 @@ TLoaded ==
        THEN UNCHANGED mode
        ELSE PrintT(<<"DRIFT", scn, l, "Loaded: structure or initial caches differ from the model">>) /\ mode' = "lost"
   /\ nviol' = nviol + (IF StructureOK THEN QuiescentChecks(Line.cs, Line.ct, FALSE, 1) ELSE 0)
-  /\ l' = l + 1 /\ UNCHANGED <<vars, scn, mkind, mcar, msrc, mbad, mlast>>
+  /\ l' = l + 1 /\ UNCHANGED <<vars, scn, mkind, mcar, msrc, mbad, mpc, mat, movr, mlast>>
 
 \* end of a free-running run
 TFreeEnd ==
@@ -233,7 +264,7 @@ TFreeEnd ==
   /\ (SizeOK(Line.cs) /\ SizeOK(Line.ct)) =>
         /\ Note("AdapterStale", Line.lasts \in {"none", Line.cs[Root]}, <<"state", Line.lasts, Line.cs[Root]>>)
         /\ Note("AdapterStale", Line.lastt \in {"none", Line.ct[Root]}, <<"status", Line.lastt, Line.ct[Root]>>)
-  /\ l' = l + 1 /\ UNCHANGED <<vars, mode, scn, mkind, mcar, msrc, mbad, mlast>>
+  /\ l' = l + 1 /\ UNCHANGED <<vars, mode, scn, mkind, mcar, msrc, mbad, mpc, mat, movr, mlast>>
 
 \* the real product tables, pair by pair
 TProd ==
@@ -242,13 +273,14 @@ TProd ==
        + Soft("ProductTable",
               IF Line.ev = "ProdS" THEN XS(Line.a, Line.b) = Line.r ELSE XT(Line.a, Line.b) = Line.r,
               <<Line.ev, Line.a, Line.b, Line.r>>)
-  /\ l' = l + 1 /\ UNCHANGED <<vars, mode, scn, mkind, mcar, msrc, mbad, mlast>>
+  /\ l' = l + 1 /\ UNCHANGED <<vars, mode, scn, mkind, mcar, msrc, mbad, mpc, mat, movr, mlast>>
 
 TraceInit ==
   /\ Init
   /\ l = 1 /\ mode = "lost" /\ scn = -1 /\ nviol = 0
   /\ mkind = [t \in TIds |-> "-"] /\ mcar = [t \in TIds |-> "-"] /\ msrc = [t \in TIds |-> 0]
   /\ mbad = FALSE /\ mlast = [state |-> "none", status |-> "none"]
+  /\ mpc = [t \in TIds |-> "idle"] /\ mat = [t \in TIds |-> 0] /\ movr = FALSE
 
 TraceNext == TStepOk \/ TStepDrift \/ TStepLost \/ TReset \/ TLoaded \/ TFreeEnd \/ TProd \/ TAbandon \/ TSettle
 
